@@ -187,7 +187,12 @@ class _Bool(Desc):
         return VBool(sym.unbox_bool(t))
 
     def accepts(self, v):
-        return isinstance(v, VBool)
+        if not isinstance(v, VBool):
+            return False
+        if self.const is not None:
+            c = sym.is_concrete_bool(v.t)
+            return c is not None and c == self.const
+        return True
 
 
 class _Float(Desc):
